@@ -510,6 +510,45 @@ func BlockedIn(d map[uint64]GInfo, g uint64, states []string, subs ...string) bo
 	return true
 }
 
+// CanStep tells whether, in this dump, some goroutine other than the caller
+// (self) is on a processor, waiting for one, or inside a system call. While
+// such a goroutine exists no picture of blocked goroutines is final: it may be
+// about to send, unlock or signal, however long the machine keeps it waiting.
+func CanStep(d map[uint64]GInfo, self uint64) bool {
+	for id, gi := range d {
+		if id == self {
+			continue
+		}
+		switch gi.State {
+		case "running", "runnable", "syscall", "IO wait":
+			return true
+		}
+	}
+	return false
+}
+
+// InnermostNonRuntime returns the innermost frame of goroutine g that does
+// not belong to the runtime, sync or internal packages ("" if unknown).
+func InnermostNonRuntime(d map[uint64]GInfo, g uint64) string {
+	gi, ok := d[g]
+	if !ok {
+		return ""
+	}
+	for _, l := range strings.Split(gi.Stack, "\n")[1:] {
+		if strings.HasPrefix(l, "\t") || l == "" {
+			continue
+		}
+		if strings.HasPrefix(l, "runtime.") || strings.HasPrefix(l, "sync.") || strings.HasPrefix(l, "internal/") || strings.HasPrefix(l, "sync/") {
+			continue
+		}
+		if i := strings.LastIndex(l, "("); i > 0 {
+			l = l[:i]
+		}
+		return l
+	}
+	return ""
+}
+
 // WaitGroupStates are the scheduler states of a goroutine blocked in
 // sync.WaitGroup.Wait (go1.23: "semacquire"; later versions name it).
 var WaitGroupStates = []string{"semacquire", "sync.WaitGroup.Wait"}
